@@ -33,25 +33,27 @@ const (
 	// allocation bound: 64·len + allocConst. The constant covers the decoders that pre-size from a
 	// *checked* count or length: ReadVarString's 16 MiB cap (one failed read of a maximal string),
 	// ReadVarBytes up to MaxBlockContextSize (8 MB), inv 50 000 × 44 B, merkleblock 10 000 hashes.
-	allocConst  = 24 << 20
+	allocConst   = 24 << 20
 	allocPerByte = 64
 	// a decoder that keeps calling Read this many times in a row after the input is exhausted is
 	// cut off (sentinel panic raised by the harness reader, recovered by the harness); what it
 	// allocated until then is measured like any other case.
-	eofReadCap = 1 << 20
-	workerMemMB = 1536
+	eofReadCap  = 1 << 20
+	workerMemMB = 2048
+	learnMin    = 1 << 16 // only counts at least this large are learned as allocation sizes
 )
 
 type eofLoop struct{}
+type suppressed struct{ site string }
 
 // outcome of one decode
 type outcome struct {
-	Class   string // ok | err | panic | eofloop
-	Reads   int
-	Alloc   uint64
-	PanicAt string
+	Class    string // ok | err | panic | eofloop | suppressed
+	Reads    int
+	Alloc    uint64
+	PanicAt  string
 	PanicMsg string
-	Left    int
+	SupSite  string
 }
 
 var ms runtime.MemStats
@@ -61,7 +63,7 @@ func totalAlloc() uint64 {
 	return ms.TotalAlloc
 }
 
-// capReader wraps the tracker with the EOF-loop cut-off.
+// capTracker wraps the tracker with the EOF-loop cut-off.
 type capTracker struct {
 	*wire.Tracker
 	eofRun int
@@ -94,8 +96,6 @@ func panicClass(msg string) string {
 		return "integer divide by zero"
 	case strings.Contains(msg, "interface conversion"):
 		return "interface conversion"
-	case strings.Contains(msg, "out of memory"):
-		return "out of memory"
 	}
 	if len(msg) > 60 {
 		msg = msg[:60]
@@ -103,20 +103,79 @@ func panicClass(msg string) string {
 	return msg
 }
 
-// decode runs the seed's decoder on input and measures it.
-func decode(s *wire.Seed, input []byte, t *wire.Tracker) (o outcome) {
+// known maps a read site whose value is used, unchecked, as an allocation size (established by a
+// measured violation) to the smallest value seen to violate. Allocation grows with the count, so
+// any case that reads a value at least that large at that site is the same violation; it is
+// stopped at that read (so that the worker survives) and counted under the same signature.
+type known map[string]uint64
+
+func (k known) min() uint64 {
+	m := ^uint64(0)
+	for _, v := range k {
+		if v < m {
+			m = v
+		}
+	}
+	return m
+}
+
+func (k known) learn(site string, v uint64) bool {
+	if site == "" || v < learnMin {
+		return false
+	}
+	if cur, ok := k[site]; !ok || v < cur {
+		k[site] = v
+		return true
+	}
+	return false
+}
+
+func (k known) clone() known {
+	o := known{}
+	for a, b := range k {
+		o[a] = b
+	}
+	return o
+}
+
+// decode runs the seed's decoder on input and measures it. For decoders that cannot take the
+// tracking reader (DecodeBuf) the io.Reader twin is run first under the guard.
+func decode(s *wire.Seed, input []byte, t *wire.Tracker, kn known) (o outcome) {
+	if s.DecodeBuf != nil && len(kn) > 0 {
+		tt := wire.NewTracker(input)
+		tt.NoTrace = true
+		if po := decode(s.TrackedTwin, input, tt, kn); po.Class == "suppressed" {
+			return po
+		}
+	}
 	ct := &capTracker{Tracker: t}
+	if len(kn) > 0 && s.DecodeBuf == nil {
+		lo := kn.min()
+		t.Guard = func(rd *wire.Rd, val uint64) {
+			if val < lo {
+				return
+			}
+			site := t.SiteHere()
+			if mv, ok := kn[site]; ok && val >= mv {
+				panic(suppressed{site})
+			}
+		}
+	}
 	a0 := totalAlloc()
 	func() {
 		defer func() {
 			if e := recover(); e != nil {
-				if _, ok := e.(eofLoop); ok {
+				switch x := e.(type) {
+				case eofLoop:
 					o.Class = "eofloop"
-					return
+				case suppressed:
+					o.Class = "suppressed"
+					o.SupSite = x.site
+				default:
+					o.Class = "panic"
+					o.PanicMsg = fmt.Sprint(e)
+					o.PanicAt = evid.PanicSite(debug.Stack())
 				}
-				o.Class = "panic"
-				o.PanicMsg = fmt.Sprint(e)
-				o.PanicAt = evid.PanicSite(debug.Stack())
 			}
 		}()
 		var err error
@@ -137,14 +196,16 @@ func decode(s *wire.Seed, input []byte, t *wire.Tracker) (o outcome) {
 	a1 := totalAlloc()
 	o.Alloc = a1 - a0
 	o.Reads = t.Reads
-	o.Left = t.Remaining()
+	if o.Alloc > 16<<20 {
+		runtime.GC() // give the address space back before the next large case
+	}
 	return o
 }
 
 func bound(n int) uint64 { return uint64(allocPerByte*n) + allocConst }
 
 // ---------------------------------------------------------------------------------------------
-// case enumeration (identical in parent — for counting — and worker)
+// case enumeration (identical in parent and worker)
 
 type caseGen struct {
 	seed   []byte
@@ -152,8 +213,8 @@ type caseGen struct {
 	tier   string
 }
 
-// each calls f(kind, label, input) for every case of the seed, in a fixed order, starting at
-// case index `from`; f returns false to stop.
+// each calls f for every case of the seed, in a fixed order, starting at case index `from`; f
+// returns false to stop. It returns the number of cases visited or skipped.
 func (g *caseGen) each(from int, f func(idx int, kind, label string, input []byte) bool) int {
 	idx := 0
 	emit := func(kind, label string, mk func() []byte) bool {
@@ -182,36 +243,25 @@ func (g *caseGen) each(from int, f func(idx int, kind, label string, input []byt
 		}
 	}
 	// 3. every single-byte substitution
+	alpha := wire.ByteAlphabet16
 	if g.tier == "thorough" {
-		for p := 0; p < len(g.seed); p++ {
-			for v := 0; v < 256; v++ {
-				if byte(v) == g.seed[p] {
-					continue
-				}
-				p, v := p, v
-				if !emit("byte", fmt.Sprintf("%d=%02x", p, v), func() []byte {
-					b := append([]byte{}, g.seed...)
-					b[p] = byte(v)
-					return b
-				}) {
-					return idx
-				}
-			}
+		alpha = make([]byte, 256)
+		for i := range alpha {
+			alpha[i] = byte(i)
 		}
-	} else {
-		for p := 0; p < len(g.seed); p++ {
-			for _, v := range wire.ByteAlphabet16 {
-				if v == g.seed[p] {
-					continue
-				}
-				p, v := p, v
-				if !emit("byte", fmt.Sprintf("%d=%02x", p, v), func() []byte {
-					b := append([]byte{}, g.seed...)
-					b[p] = v
-					return b
-				}) {
-					return idx
-				}
+	}
+	for p := 0; p < len(g.seed); p++ {
+		for _, v := range alpha {
+			if v == g.seed[p] {
+				continue
+			}
+			p, v := p, v
+			if !emit("byte", fmt.Sprintf("%d=%02x", p, v), func() []byte {
+				b := append([]byte{}, g.seed...)
+				b[p] = v
+				return b
+			}) {
+				return idx
 			}
 		}
 	}
@@ -261,35 +311,68 @@ type diagResult struct {
 	What      string `json:"what"`
 	Class     string `json:"class"`
 	Alloc     uint64 `json:"alloc"`
+	Site      string `json:"site,omitempty"`   // learnable count site
+	MinVal    uint64 `json:"minval,omitempty"` // the value read there
+}
+
+func rdValue(input []byte, rd wire.Rd) uint64 {
+	if rd.Got == rd.N && (rd.N == 2 || rd.N == 4 || rd.N == 8) && rd.Off+rd.N <= len(input) {
+		return wire.LEValue(input[rd.Off : rd.Off+rd.N])
+	}
+	return 0
+}
+
+// soleLargeRead: when the untracked decoder misbehaves on its own, the culprit count is named by
+// the twin's trace if exactly one site read a large value.
+func soleLargeRead(s *wire.Seed, input []byte) (string, uint64) {
+	t := wire.NewTracker(input)
+	t.Sites = true
+	func() {
+		defer func() { recover() }()
+		if s.Setup != nil {
+			s.Setup()
+		}
+		s.Decode(&capTracker{Tracker: t})
+	}()
+	site, val, n := "", uint64(0), 0
+	for _, rd := range t.Trace {
+		if v := rdValue(input, rd); v >= learnMin {
+			if rd.Site != site {
+				n++
+			}
+			site, val = rd.Site, v
+		}
+	}
+	if n == 1 {
+		return site, val
+	}
+	return "", 0
 }
 
 func diagnose(s *wire.Seed, input []byte, announce bool) diagResult {
 	if s.DecodeBuf != nil {
-		// untracked decoder: if the io.Reader twin misbehaves on the same bytes the defect is
-		// shared and carries the twin's signature; otherwise it is the untracked decoder's own.
-		o := outcome{}
-		if announce {
-			par.Announce("site:" + s.Name + "|field=self")
-		}
-		tw := diagnose(s.TrackedTwin, input, false)
+		// untracked decoder (takes *bytes.Buffer): if its io.Reader twin misbehaves on the same
+		// bytes the defect is shared and carries the twin's signature; otherwise it is the
+		// untracked decoder's own.
+		tw := diagnose(s.TrackedTwin, input, announce)
 		if tw.Signature != "" {
-			if announce {
-				par.Announce("site:" + strings.TrimPrefix(strings.TrimPrefix(tw.Signature, "C02|alloc|"), "C02|panic|"))
-			}
+			return tw
+		}
+		site, val := soleLargeRead(s.TrackedTwin, input)
+		if announce {
+			par.Announce(fmt.Sprintf("site:%s|self@%s#%d", s.Name, site, val))
 		}
 		t := wire.NewTracker(input)
 		t.NoTrace = true
-		o = decode(s, input, t)
-		if tw.Signature != "" && (o.Class == "panic" || o.Alloc > bound(len(input))) {
-			return tw
-		}
+		o := decode(s, input, t, nil)
+		bad := o.Class == "panic" || o.Alloc > bound(len(input))
 		switch {
 		case o.Class == "panic" && panicClass(o.PanicMsg) != "makeslice":
 			return diagResult{Signature: "C02|panic|" + o.PanicAt + "|" + panicClass(o.PanicMsg), Class: "panic", Alloc: o.Alloc,
 				What: fmt.Sprintf("%s panics: %s", s.Name, o.PanicMsg)}
-		case o.Class == "panic" || o.Alloc > bound(len(input)):
-			return diagResult{Signature: "C02|alloc|" + s.Name + "|field=self", Class: "alloc", Alloc: o.Alloc,
-				What: fmt.Sprintf("%s allocates from an unchecked wire count (%d bytes for %d input bytes; %s)", s.Name, o.Alloc, len(input), o.PanicMsg)}
+		case bad:
+			return diagResult{Signature: "C02|alloc|" + s.Name + "|self", Class: "alloc", Alloc: o.Alloc, Site: site, MinVal: val,
+				What: fmt.Sprintf("%s allocates from an unchecked wire count (%d bytes allocated for %d input bytes %s) where the io.Reader decoder of the same layout does not; count read at %s", s.Name, o.Alloc, len(input), o.PanicMsg, site)}
 		}
 		return diagResult{}
 	}
@@ -313,17 +396,16 @@ func diagnose(s *wire.Seed, input []byte, announce bool) diagResult {
 			eofRun = 0
 		}
 		if announce {
-			par.Announce("site:" + rd.Site)
+			par.Announce(fmt.Sprintf("site:%s#%d", rd.Site, rdValue(input, *rd)))
 		}
 		allocAt = append(allocAt, totalAlloc())
 	}
-	start := totalAlloc()
-	o := decode(s, input, t)
-	end := start + o.Alloc
+	o := decode(s, input, t, nil)
+	end := totalAlloc()
 	tr := t.Trace
-	last := "none|field=?"
+	last := wire.Rd{Site: "none|field=?"}
 	if len(tr) > 0 {
-		last = tr[len(tr)-1].Site
+		last = tr[len(tr)-1]
 	}
 	over := o.Alloc > bound(len(input))
 	switch {
@@ -331,11 +413,11 @@ func diagnose(s *wire.Seed, input []byte, announce bool) diagResult {
 		return diagResult{Signature: "C02|panic|" + o.PanicAt + "|" + panicClass(o.PanicMsg), Class: "panic", Alloc: o.Alloc,
 			What: fmt.Sprintf("decoder panics at %s: %s", o.PanicAt, o.PanicMsg)}
 	case o.Class == "panic":
-		return diagResult{Signature: "C02|alloc|" + last, Class: "alloc", Alloc: o.Alloc,
-			What: fmt.Sprintf("slice sized from the unchecked wire value read at %s: %s", last, o.PanicMsg)}
+		return diagResult{Signature: "C02|alloc|" + last.Site, Class: "alloc", Alloc: o.Alloc, Site: last.Site, MinVal: rdValue(input, last),
+			What: fmt.Sprintf("slice sized from the unchecked wire value read at %s: %s", last.Site, o.PanicMsg)}
 	case over && maxEofRun > 1000:
-		return diagResult{Signature: "C02|alloc|eof-loop|" + last, Class: "alloc", Alloc: o.Alloc,
-			What: fmt.Sprintf("decoder keeps looping (and appending) after the input is exhausted; the read at %s fails with EOF and the error is ignored; %d bytes allocated for %d input bytes", last, o.Alloc, len(input))}
+		return diagResult{Signature: "C02|alloc|eof-loop|" + last.Site, Class: "alloc", Alloc: o.Alloc,
+			What: fmt.Sprintf("decoder keeps looping (and appending) after the input is exhausted: the read at %s fails with EOF and the error is ignored; %d bytes allocated for %d input bytes", last.Site, o.Alloc, len(input))}
 	case over:
 		// the read that completed just before the largest allocation jump
 		best, bestJump := -1, uint64(0)
@@ -344,19 +426,17 @@ func diagnose(s *wire.Seed, input []byte, announce bool) diagResult {
 			if i+1 < len(allocAt) {
 				nxt = allocAt[i+1]
 			}
-			if j := nxt - allocAt[i]; j > bestJump {
-				best, bestJump = i, j
+			if nxt > allocAt[i] && nxt-allocAt[i] > bestJump {
+				best, bestJump = i, nxt-allocAt[i]
 			}
 		}
-		site := last
-		if best >= 0 && best < len(tr) {
-			site = tr[best].Site
+		if best < 0 || best >= len(tr) || bestJump < 1<<20 {
+			return diagResult{Signature: "C02|alloc|gradual|" + last.Site, Class: "alloc", Alloc: o.Alloc,
+				What: fmt.Sprintf("%d bytes allocated for %d input bytes without a single large allocation (last read %s)", o.Alloc, len(input), last.Site)}
 		}
-		if bestJump < 1<<20 {
-			site = "gradual|" + last
-		}
-		return diagResult{Signature: "C02|alloc|" + site, Class: "alloc", Alloc: o.Alloc,
-			What: fmt.Sprintf("%d bytes allocated for %d input bytes right after the wire value read at %s (unchecked count used as an allocation size)", o.Alloc, len(input), site)}
+		c := tr[best]
+		return diagResult{Signature: "C02|alloc|" + c.Site, Class: "alloc", Alloc: o.Alloc, Site: c.Site, MinVal: rdValue(input, c),
+			What: fmt.Sprintf("%d bytes allocated for %d input bytes right after the wire value read at %s (unchecked count used as an allocation size)", o.Alloc, len(input), c.Site)}
 	}
 	return diagResult{}
 }
@@ -373,18 +453,27 @@ type artefact struct {
 	Detail string `json:"detail,omitempty"`
 }
 
+type job struct {
+	Op    string `json:"op"` // enum | diag
+	Seed  int    `json:"seed"`
+	From  int    `json:"from"`
+	To    int    `json:"to,omitempty"` // exclusive; 0 = to the end
+	Known known  `json:"known,omitempty"`
+	Input string `json:"input,omitempty"`
+}
+
 type workerOut struct {
-	Seed       string            `json:"seed"`
-	Cases      int               `json:"cases"`
-	Done       bool              `json:"done"`
-	Classes    map[string]int    `json:"classes"`
-	Kinds      map[string]int    `json:"kinds"`
-	Fields     int               `json:"fields"`
-	CountLike  int               `json:"count_like"`
-	MaxAlloc   uint64            `json:"max_alloc"`
-	Violations []evid.Violation  `json:"violations"`
-	Sample     map[string]string `json:"sample"`
-	Diag       *diagResult       `json:"diag,omitempty"`
+	Seed       string           `json:"seed"`
+	Cases      int              `json:"cases"`
+	Done       bool             `json:"done"`
+	Invalid    bool             `json:"invalid"`
+	Classes    map[string]int   `json:"classes"`
+	Kinds      map[string]int   `json:"kinds"`
+	Fields     int              `json:"fields"`
+	MaxAlloc   uint64           `json:"max_alloc"`
+	Violations []evid.Violation `json:"violations"`
+	Known      known            `json:"known,omitempty"`
+	Diag       *diagResult      `json:"diag,omitempty"`
 }
 
 func seedByIndex(i int) *wire.Seed {
@@ -395,31 +484,42 @@ func seedByIndex(i int) *wire.Seed {
 	return seeds[i]
 }
 
-func runWorker(r *evid.Run, job string) {
-	debug.SetGCPercent(100)
-	parts := strings.Split(job, ":")
-	switch parts[0] {
+func runWorker(r *evid.Run, js string) {
+	var j job
+	if err := json.Unmarshal([]byte(js), &j); err != nil {
+		evid.Fatalf("job: %v", err)
+	}
+	s := seedByIndex(j.Seed)
+	switch j.Op {
 	case "enum":
-		si, _ := strconv.Atoi(parts[1])
-		from, _ := strconv.Atoi(parts[2])
-		s := seedByIndex(si)
-		out := workerOut{Seed: s.Name, Classes: map[string]int{}, Kinds: map[string]int{}, Sample: map[string]string{}}
+		out := workerOut{Seed: s.Name, Classes: map[string]int{}, Kinds: map[string]int{}, Known: j.Known.clone()}
 		tr, ok := baseline(s)
 		if !ok {
-			out.Done = true
-			out.Sample["invalid_seed"] = "1"
+			out.Done, out.Invalid = true, true
 			par.Emit(out)
 			return
 		}
 		fields := wire.Fields(tr)
 		out.Fields = len(fields)
 		g := &caseGen{seed: s.Bytes, fields: fields, tier: r.Tier}
-		seenSig := map[string]bool{}
-		n := g.each(from, func(idx int, kind, label string, input []byte) bool {
-			par.Announce(fmt.Sprintf("%d:%d:%s:%s", si, idx, kind, label))
+		vidx := map[string]int{}
+		addViol := func(sig, what string, art artefact) {
+			if i, ok := vidx[sig]; ok {
+				out.Violations[i].Count++
+				return
+			}
+			vidx[sig] = len(out.Violations)
+			out.Violations = append(out.Violations, evid.Violation{Signature: sig, What: what, Count: 1, Artefact: art})
+		}
+		completed := true
+		g.each(j.From, func(idx int, kind, label string, input []byte) bool {
+			if j.To > 0 && idx >= j.To {
+				return false
+			}
+			par.Announce(fmt.Sprintf("%d:%d:%s:%s", j.Seed, idx, kind, label))
 			t := wire.NewTracker(input)
 			t.NoTrace = true
-			o := decode(s, input, t)
+			o := decode(s, input, t, out.Known)
 			out.Cases++
 			out.Kinds[kind]++
 			cls := o.Class
@@ -430,57 +530,62 @@ func runWorker(r *evid.Run, job string) {
 			if o.Alloc > out.MaxAlloc {
 				out.MaxAlloc = o.Alloc
 			}
-			if o.Class == "panic" || o.Alloc > bound(len(input)) {
+			switch {
+			case o.Class == "suppressed":
+				sig := "C02|alloc|" + o.SupSite
+				if s.DecodeBuf != nil {
+					if _, own := out.Known["self@"+o.SupSite]; own {
+						sig = "C02|alloc|" + s.Name + "|self"
+					}
+				}
+				addViol(sig, "", artefact{Seed: s.Name, Kind: kind, Label: label, Input: hex.EncodeToString(input), Detail: "stopped at the read of the count (site already shown to allocate from it)"})
+			case o.Class == "panic" || o.Alloc > bound(len(input)):
 				d := diagnose(s, input, false)
 				if d.Signature == "" {
 					// not reproduced on the second run: engine problem, never a verdict
 					evid.Fatalf("violation on %s case %d (%s %s) did not reproduce under diagnosis", s.Name, idx, kind, label)
 				}
-				if !seenSig[d.Signature] {
-					seenSig[d.Signature] = true
-					out.Violations = append(out.Violations, evid.Violation{Signature: d.Signature, What: d.What, Count: 1,
-						Artefact: artefact{Seed: s.Name, Kind: kind, Label: label, Input: hex.EncodeToString(input), Alloc: d.Alloc}})
-				} else {
-					for i := range out.Violations {
-						if out.Violations[i].Signature == d.Signature {
-							out.Violations[i].Count++
-						}
-					}
+				addViol(d.Signature, d.What, artefact{Seed: s.Name, Kind: kind, Label: label, Input: hex.EncodeToString(input), Alloc: d.Alloc})
+				if out.Known.learn(d.Site, d.MinVal) && strings.HasSuffix(d.Signature, "|self") {
+					out.Known["self@"+d.Site] = d.MinVal
 				}
 			}
 			if r.Expired() {
+				completed = false
 				return false
 			}
 			return true
 		})
-		_ = n
-		out.Done = !r.Expired()
+		out.Done = completed
 		par.Emit(out)
 	case "diag":
-		// diag:<seed index>:<hex input> — single case, announcing every read site, so that the
-		// parent can name the culprit even if this process is killed by the allocation.
-		si, _ := strconv.Atoi(parts[1])
-		s := seedByIndex(si)
-		input, err := hex.DecodeString(parts[2])
+		// single case, announcing every read site and value, so that the parent can name the
+		// culprit even if this process is killed by the allocation.
+		input, err := hex.DecodeString(j.Input)
 		if err != nil {
 			evid.Fatalf("diag: bad hex")
 		}
-		par.Announce("site:none|field=?")
+		par.Announce("site:none|field=?#0")
 		d := diagnose(s, input, true)
 		par.Emit(workerOut{Seed: s.Name, Diag: &d, Done: true})
 	default:
-		evid.Fatalf("unknown job %q", job)
+		evid.Fatalf("unknown job %q", js)
 	}
+}
+
+func jobString(j job) string {
+	b, _ := json.Marshal(j)
+	return string(b)
 }
 
 // diagInSubprocess runs one input in a fresh worker and turns a death into a signature.
 func diagInSubprocess(scr string, si int, s *wire.Seed, input []byte) diagResult {
-	res := par.Procs([]string{fmt.Sprintf("diag:%d:%s", si, hex.EncodeToString(input))}, scr, par.Opts{MemMB: workerMemMB, Timeout: 5 * time.Minute, Parallel: 1})
+	res := par.Procs([]string{jobString(job{Op: "diag", Seed: si, Input: hex.EncodeToString(input)})}, scr, par.Opts{MemMB: workerMemMB, Timeout: 5 * time.Minute, Parallel: 1})
 	r0 := res[0]
 	if !r0.Died {
 		var wo workerOut
 		if err := json.Unmarshal(r0.Out, &wo); err != nil || wo.Diag == nil {
-			evid.Fatalf("diag worker output: %v", err)
+			evid.Fatalf("diag worker output: %v %s", err, r0.Stderr)
 		}
 		return *wo.Diag
 	}
@@ -491,23 +596,39 @@ func diagInSubprocess(scr string, si int, s *wire.Seed, input []byte) diagResult
 		evid.Fatalf("diag worker died without announcing a site: %s", r0.Stderr)
 	}
 	site := strings.TrimPrefix(r0.Announced, "site:")
+	var val uint64
+	if k := strings.LastIndex(site, "#"); k >= 0 {
+		val, _ = strconv.ParseUint(site[k+1:], 10, 64)
+		site = site[:k]
+	}
 	fatal := "killed"
 	if strings.Contains(r0.Stderr, "out of memory") || strings.Contains(r0.Stderr, "cannot allocate memory") {
 		fatal = "fatal error: out of memory"
 	}
-	return diagResult{Signature: "C02|alloc|" + site, Class: "alloc",
+	if k := strings.Index(site, "|self@"); k >= 0 {
+		// the untracked decoder died on its own (its twin had finished cleanly)
+		name, csite := site[:k], site[k+len("|self@"):]
+		return diagResult{Signature: "C02|alloc|" + name + "|self", Class: "alloc", Site: csite, MinVal: val,
+			What: fmt.Sprintf("%s dies (%s under a %d MiB address-space limit) allocating from an unchecked wire count where the io.Reader decoder of the same layout does not; count read at %s", name, fatal, workerMemMB, csite)}
+	}
+	return diagResult{Signature: "C02|alloc|" + site, Class: "alloc", Site: site, MinVal: val,
 		What: fmt.Sprintf("decoder process dies (%s under a %d MiB address-space limit) right after the wire value read at %s (unchecked count used as an allocation size)", fatal, workerMemMB, site)}
 }
 
 // ---------------------------------------------------------------------------------------------
 
+type pend struct {
+	si, from, to int
+	known        known
+}
+
 func main() {
 	r := evid.Start("C02", "exploration")
 	scr := evid.Scratch("c02")
 	defer os.RemoveAll(scr)
-	if job, ok := par.Worker(); ok {
+	if js, ok := par.Worker(); ok {
 		hx.QuietLogs(scr)
-		runWorker(r, job)
+		runWorker(r, js)
 		os.RemoveAll(scr)
 		return
 	}
@@ -523,41 +644,53 @@ func main() {
 		return
 	}
 
-	// jobs: one worker per seed
-	type pend struct {
-		si   int
-		from int
-	}
 	var pending []pend
 	invalid := []string{}
+	only := os.Getenv("VERIF_C02_ONLY") // debugging aid: restrict to seeds whose name contains this
 	for i, s := range seeds {
+		if only != "" && !strings.Contains(s.Name, only) {
+			continue
+		}
 		if err := s.Validate(); err != nil {
 			invalid = append(invalid, s.Name+": "+err.Error())
 			continue
 		}
-		pending = append(pending, pend{i, 0})
+		pending = append(pending, pend{si: i, known: known{}})
 	}
-	total := workerOut{Classes: map[string]int{}, Kinds: map[string]int{}}
-	perSeed := map[string]*workerOut{}
-	distinct := map[string]bool{}
+	type seedStat struct {
+		Cases, Fields int
+		MaxAlloc      uint64
+		Classes       map[string]int
+		Kinds         map[string]int
+	}
+	perSeed := map[string]*seedStat{}
+	stat := func(n string) *seedStat {
+		ws := perSeed[n]
+		if ws == nil {
+			ws = &seedStat{Classes: map[string]int{}, Kinds: map[string]int{}}
+			perSeed[n] = ws
+		}
+		return ws
+	}
 	exhaustive := true
 	deaths := 0
-	samples := &evid.Samples{N: 8}
-	rounds := 0
-	for len(pending) > 0 {
-		rounds++
-		if rounds > 4000 {
+	whatOf := map[string]string{}
+	type lateViol struct{ v evid.Violation }
+	var late []lateViol
+	for rounds := 0; len(pending) > 0; rounds++ {
+		if rounds > 2000 {
 			evid.Fatalf("too many restart rounds")
 		}
 		jobs := make([]string, len(pending))
 		for i, p := range pending {
-			jobs[i] = fmt.Sprintf("enum:%d:%d", p.si, p.from)
+			jobs[i] = jobString(job{Op: "enum", Seed: p.si, From: p.from, To: p.to, Known: p.known})
 		}
 		results := par.Procs(jobs, scr, par.Opts{MemMB: workerMemMB, Timeout: 40 * time.Minute, Env: []string{"GOMAXPROCS=2"}})
 		var next []pend
 		for i, res := range results {
 			p := pending[i]
 			s := seeds[p.si]
+			ws := stat(s.Name)
 			if res.Died {
 				if res.TimedOut {
 					evid.Fatalf("worker for %s timed out (announced %q)", s.Name, res.Announced)
@@ -569,7 +702,6 @@ func main() {
 				}
 				idx, _ := strconv.Atoi(a[1])
 				deaths++
-				// regenerate the input of that case
 				tr, _ := baseline(s)
 				g := &caseGen{seed: s.Bytes, fields: wire.Fields(tr), tier: r.Tier}
 				var input []byte
@@ -578,28 +710,45 @@ func main() {
 				if d.Signature == "" {
 					evid.Fatalf("worker for %s died on case %s but the case is clean when re-run alone: %s", s.Name, res.Announced, res.Stderr)
 				}
-				r.Violate(d.Signature, d.What, artefact{Seed: s.Name, Kind: a[2], Label: a[3], Input: hex.EncodeToString(input), Detail: "worker process died on this input"})
-				ws := perSeed[s.Name]
-				if ws == nil {
-					ws = &workerOut{Seed: s.Name, Classes: map[string]int{}, Kinds: map[string]int{}}
-					perSeed[s.Name] = ws
+				art := artefact{Seed: s.Name, Kind: a[2], Label: a[3], Input: hex.EncodeToString(input), Detail: "worker process died on this input"}
+				kn := p.known.clone()
+				learned := kn.learn(d.Site, d.MinVal)
+				if learned && strings.HasSuffix(d.Signature, "|self") {
+					kn["self@"+d.Site] = d.MinVal
 				}
-				ws.Cases += idx + 1 - p.from
-				ws.Classes["died"]++
-				next = append(next, pend{p.si, idx + 1})
+				whatOf[d.Signature] = d.What
+				if learned {
+					// the worker's counters for [from, idx) died with it: run the segment again
+					// with the guard armed; the killer is then stopped at the read of the count
+					// and counted once. Keep the artefact of the unguarded death.
+					late = append(late, lateViol{evid.Violation{Signature: d.Signature, What: d.What, Count: 0, Artefact: art}})
+					next = append(next, pend{si: p.si, from: p.from, to: p.to, known: kn})
+				} else {
+					// cannot be guarded: count the killer here, re-run the prefix bounded, and
+					// continue behind the killer
+					r.Violate(d.Signature, d.What, art)
+					ws.Cases++
+					ws.Kinds[a[2]]++
+					ws.Classes["died"]++
+					if idx > p.from {
+						next = append(next, pend{si: p.si, from: p.from, to: idx, known: kn})
+					}
+					if p.to == 0 || idx+1 < p.to {
+						next = append(next, pend{si: p.si, from: idx + 1, to: p.to, known: kn})
+					}
+				}
 				continue
 			}
 			var wo workerOut
 			if err := json.Unmarshal(res.Out, &wo); err != nil {
 				evid.Fatalf("worker output for %s: %v\n%s", s.Name, err, res.Stderr)
 			}
+			if wo.Invalid {
+				invalid = append(invalid, s.Name+": baseline decode failed in worker")
+				continue
+			}
 			if !wo.Done {
 				exhaustive = false
-			}
-			ws := perSeed[s.Name]
-			if ws == nil {
-				ws = &workerOut{Seed: s.Name, Classes: map[string]int{}, Kinds: map[string]int{}}
-				perSeed[s.Name] = ws
 			}
 			ws.Cases += wo.Cases
 			ws.Fields = wo.Fields
@@ -613,10 +762,39 @@ func main() {
 				ws.Kinds[k] += v
 			}
 			for _, v := range wo.Violations {
-				r.MergeViolation(v)
+				if v.What != "" {
+					whatOf[v.Signature] = v.What
+				}
+			}
+			for _, v := range wo.Violations {
+				late = append(late, lateViol{v})
 			}
 		}
 		pending = next
+	}
+	// merge violations in a deterministic order: by seed order is implied by results order within
+	// a round; sort by signature, artefacts with a measured allocation first
+	sort.SliceStable(late, func(i, j int) bool {
+		if late[i].v.Signature != late[j].v.Signature {
+			return late[i].v.Signature < late[j].v.Signature
+		}
+		ai, _ := json.Marshal(late[i].v.Artefact)
+		aj, _ := json.Marshal(late[j].v.Artefact)
+		si, sj := strings.Contains(string(ai), "stopped at the read"), strings.Contains(string(aj), "stopped at the read")
+		if si != sj {
+			return !si
+		}
+		return false
+	})
+	for _, l := range late {
+		v := l.v
+		if v.What == "" {
+			v.What = whatOf[v.Signature]
+			if v.What == "" {
+				v.What = "allocation sized from the unchecked wire value read at " + strings.TrimPrefix(v.Signature, "C02|alloc|")
+			}
+		}
+		r.MergeViolation(v)
 	}
 	// totals
 	names := make([]string, 0, len(perSeed))
@@ -624,34 +802,38 @@ func main() {
 		names = append(names, n)
 	}
 	sort.Strings(names)
-	fieldsTotal := 0
+	totalCases, fieldsTotal := 0, 0
 	var maxAlloc uint64
+	classes, kinds := map[string]int{}, map[string]int{}
+	distinct := map[string]bool{}
+	samples := &evid.Samples{N: 8}
 	for _, n := range names {
 		ws := perSeed[n]
-		total.Cases += ws.Cases
+		totalCases += ws.Cases
 		fieldsTotal += ws.Fields
 		if ws.MaxAlloc > maxAlloc {
 			maxAlloc = ws.MaxAlloc
 		}
 		for k, v := range ws.Classes {
-			total.Classes[k] += v
+			classes[k] += v
 			// non-trivial: the decoder got past its first read (reads >= 2) or misbehaved
 			nt := true
 			if strings.HasPrefix(k, "err@") || strings.HasPrefix(k, "ok@") {
 				rd, _ := strconv.Atoi(k[strings.Index(k, "@")+1:])
 				nt = rd >= 2
 			}
-			if nt {
+			if nt && v > 0 {
 				distinct[n+"|"+k] = true
 			}
 		}
 		for k, v := range ws.Kinds {
-			total.Kinds[k] += v
+			kinds[k] += v
 		}
-		samples.Add(map[string]interface{}{"seed": n, "seed_len": len(seedNamed(seeds, n).Bytes), "fields": ws.Fields, "cases": ws.Cases, "outcome_classes": len(ws.Classes), "seed_hex_prefix": hexPrefix(seedNamed(seeds, n).Bytes, 48)})
+		sd := seedNamed(seeds, n)
+		samples.Add(map[string]interface{}{"seed": n, "seed_len": len(sd.Bytes), "fields": ws.Fields, "cases": ws.Cases, "outcome_classes": len(ws.Classes), "seed_hex_prefix": hexPrefix(sd.Bytes, 48)})
 	}
 	okCount, errCount := 0, 0
-	for k, v := range total.Classes {
+	for k, v := range classes {
 		if strings.HasPrefix(k, "ok@") {
 			okCount += v
 		} else if strings.HasPrefix(k, "err@") {
@@ -661,28 +843,30 @@ func main() {
 	r.Assume = append(r.Assume,
 		"allocation is measured as the runtime.MemStats.TotalAlloc delta of the decode call on the only running goroutine of a worker process",
 		fmt.Sprintf("bound = %d*len(input) + %d MiB; the constant covers checked pre-sizing (ReadVarString 16 MiB cap, ReadVarBytes up to 8 MB, inv/merkleblock/addr/locator caps)", allocPerByte, allocConst>>20),
+		"once a read site has been measured to feed an unchecked allocation, later cases that read an equal or larger value at that site are stopped at that read and counted under the same signature (allocation is monotone in the count); this keeps workers alive and does not change which signatures are reported",
 		"checkpoint decoders reading from disk (dpos/state, cr/state, mempool, wallet) are not covered",
 	)
 	cov := evid.Coverage{
-		"evaluations":         total.Cases,
+		"evaluations":         totalCases,
 		"distinct_nontrivial": len(distinct),
 		"rule": "per seed (valid encoding produced by the repository's serialisers): every truncation, every single-field substitution over the boundary alphabet " +
 			"(fields = 1/2/4/8-byte reads seen by the tracking reader; 1-byte fields also replaced by 3/5/9-byte var-int encodings, canonical and non-canonical), " +
 			"every single-byte substitution over a 16-value alphabet (thorough: 256 values and all field pairs over a reduced menu). " +
-			"distinct_nontrivial = distinct (seed, outcome class) pairs where the decoder got past its first read; outcome class = ok@reads / err@reads / panic / eofloop / died",
-		"exhaustive":           exhaustive,
-		"seeds":                len(names),
-		"seeds_invalid":        invalid,
-		"seeds_skipped":        skipped,
-		"fields_discovered":    fieldsTotal,
-		"cases_by_kind":        total.Kinds,
-		"decoded_ok":           okCount,
-		"rejected_with_error":  errCount,
-		"panics":               total.Classes["panic"],
-		"eof_loops_cut_off":    total.Classes["eofloop"],
-		"worker_deaths":        deaths,
-		"max_alloc_bytes_seen": maxAlloc,
-		"samples":              samples.Out,
+			"distinct_nontrivial = distinct (seed, outcome class) pairs where the decoder got past its first read; outcome class = ok@reads / err@reads / panic / eofloop / suppressed / died",
+		"exhaustive":                  exhaustive,
+		"seeds":                       len(names),
+		"seeds_invalid":               invalid,
+		"seeds_skipped":               skipped,
+		"fields_discovered":           fieldsTotal,
+		"cases_by_kind":               kinds,
+		"decoded_ok":                  okCount,
+		"rejected_with_error":         errCount,
+		"panics":                      classes["panic"],
+		"eof_loops_cut_off":           classes["eofloop"],
+		"stopped_at_known_count_site": classes["suppressed"],
+		"worker_deaths":               deaths,
+		"max_alloc_bytes_seen":        maxAlloc,
+		"samples":                     samples.Out,
 	}
 	os.RemoveAll(scr)
 	r.Finish(cov)
